@@ -47,14 +47,14 @@ def run(tier):
     chk.phase("tlc:Threads", states=chk.cov["states"])
     # implementation level
     nthreads = 8
-    r, streams, n = dc.generate_feed(chk, "tfeed", wd, candidates=16000 if quick else 160000, procs=nthreads, nd=2, nr=2)
+    r, streams, n = dc.generate_feed(chk, "tfeed", wd, candidates=16000 if quick else 80000, procs=nthreads, nd=2, nr=2)
     chk.add_tlc(r)
     # reader cases (inputs with \\u escapes and surrogate pairs, every number spelling, MessagePack encodings):
     # expected code and value computed by TLC from JsonReader.tla / MsgPack.tla
     rng = random.Random(vlib.seed() + 20)
     D = rc.OPTS_DEFAULT
     wants = []
-    jl = rg.gen_valid(rng, D, 1200 if quick else 12000, wants)
+    jl = rg.gen_valid(rng, D, 1200 if quick else 6000, wants)
     jw = dict(enumerate(wants))
     jl += rg.gen_escape_offsets(D, 40)
     jl += rg.gen_mutants(rng, D, 300 if quick else 3000)
@@ -71,7 +71,7 @@ def run(tier):
             with open(fp) as f:
                 out.write(f.read())
             os.remove(fp)
-    runs = 3 if quick else 40
+    runs = 3 if quick else 16
     env = dict(os.environ, TSAN_OPTIONS="halt_on_error=1 exitcode=66 second_deadlock_stack=1")
     ops = 0
     for k in range(runs):
